@@ -388,8 +388,11 @@ def width(e) -> int:
 
 def plain_parts(e):
     """Elements of a plain chain (P[..].x..., or `+` of plain chains); None for anything else."""
-    if e[0] == "P" and e[1] is None:
-        return list(e[2])
+    if e[0] == "P":
+        if e[1] is None:
+            return list(e[2])
+        base = plain_parts(e[1])
+        return None if base is None else base + list(e[2])
     if e[0] == "add":
         left, right = plain_parts(e[1]), plain_parts(e[2])
         if left is not None and right is not None:
@@ -715,22 +718,32 @@ def build(e, world):  # noqa: C901, PLR0911
     if tag == "add":
         return build(e[1], world) + build(e[2], world)
     if tag == "P":
-        pat = P if e[1] is None else build(e[1], world)
-        for el in e[2]:
-            k = el[0]
-            if k == "a":
-                pat = getattr(pat, el[1])
-            elif k == "i":
-                pat = pat[build(el[1], world)]
-            elif k == "t":
-                items = [build(x, world) for x in el[1]]
-                pat = pat[(x for x in items)] if el[2] else pat[tuple(items)]
-            elif k == "g":
-                pat = pat.generic_arg(el[1], build(el[2], world))
-            else:
-                raise ValueError(el)
-        return pat
+        return extend(P if e[1] is None else build(e[1], world), e[2], world)
     raise ValueError(e)
+
+
+def extend(pat, elems, world):
+    """Apply chain elements to an existing pattern object (P itself or any LocStackPattern)."""
+    for el in elems:
+        k = el[0]
+        if k == "a":
+            pat = getattr(pat, el[1])
+        elif k == "i":
+            pat = pat[build(el[1], world)]
+        elif k == "t":
+            items = [build(x, world) for x in el[1]]
+            pat = pat[(x for x in items)] if el[2] else pat[tuple(items)]
+        elif k == "g":
+            pat = pat.generic_arg(el[1], build(el[2], world))
+        else:
+            raise ValueError(el)
+    return pat
+
+
+def plain1(e) -> bool:
+    """A plain chain all of whose elements look at one location (allowed as right operand of +)."""
+    parts = plain_parts(e)
+    return parts is not None and all(elem_width(el) == 1 for el in parts)
 
 
 def make_checker(e, world):
